@@ -1468,3 +1468,75 @@ pub struct HoldsSkippable {
 	pub e: Mixed,
 	pub b: u16,
 }
+
+// ---------------------------------------------------------------------------------------------
+// Round 7
+// ---------------------------------------------------------------------------------------------
+
+/// Records with more than 16 encodable fields (and a number that is not a multiple of 16).
+#[derive(Encode, Decode, DecodeWithMemTracking, MaxEncodedLen, PartialEq, Debug, Clone)]
+pub struct Wide17 {
+	pub f0: u8, pub f1: u8, pub f2: u8, pub f3: u8, pub f4: u8, pub f5: u8, pub f6: u8, pub f7: u8,
+	pub f8: u8, pub f9: u8, pub f10: u8, pub f11: u8, pub f12: u8, pub f13: u8, pub f14: u8, pub f15: u8,
+	pub f16: u16,
+}
+impl Modeled for Wide17 {
+	fn ty(_d: usize) -> String {
+		format!("tup 17{} u16", " u8".repeat(16))
+	}
+	fn val(&self, out: &mut String, _c: bool) {
+		let f = [self.f0, self.f1, self.f2, self.f3, self.f4, self.f5, self.f6, self.f7, self.f8, self.f9, self.f10, self.f11, self.f12, self.f13, self.f14, self.f15];
+		out.push_str("L 17");
+		for x in f {
+			write!(out, " n{}", x).unwrap();
+		}
+		write!(out, " n{}", self.f16).unwrap();
+	}
+	fn gen(g: &mut G) -> Self {
+		let mut b = [0u8; 16];
+		for x in b.iter_mut() {
+			*x = u8::gen(g);
+		}
+		Wide17 { f0: b[0], f1: b[1], f2: b[2], f3: b[3], f4: b[4], f5: b[5], f6: b[6], f7: b[7], f8: b[8], f9: b[9], f10: b[10], f11: b[11], f12: b[12], f13: b[13], f14: b[14], f15: b[15], f16: u16::gen(g) }
+	}
+	fn min_len() -> usize {
+		18
+	}
+}
+#[derive(Encode, Decode, DecodeWithMemTracking, MaxEncodedLen, PartialEq, Debug, Clone)]
+pub enum WideVariant {
+	Small(u8),
+	Wide(u8, u8, u8, u8, u8, u8, u8, u8, u8, u8, u8, u8, u8, u8, u8, u8, #[codec(skip)] u32, #[codec(compact)] u32, u64, Option<u16>),
+}
+impl Modeled for WideVariant {
+	fn ty(_d: usize) -> String {
+		format!("enum 2 0 tup 1 u8 1 tup 19{} c 4 u64 opt u16", " u8".repeat(16))
+	}
+	fn val(&self, out: &mut String, c: bool) {
+		match self {
+			WideVariant::Small(x) => write!(out, "V 0 L 1 n{}", x).unwrap(),
+			WideVariant::Wide(a0, a1, a2, a3, a4, a5, a6, a7, a8, a9, a10, a11, a12, a13, a14, a15, _s, cc, w, o) => {
+				out.push_str("V 1 L 19");
+				for x in [a0, a1, a2, a3, a4, a5, a6, a7, a8, a9, a10, a11, a12, a13, a14, a15] {
+					write!(out, " n{}", x).unwrap();
+				}
+				write!(out, " n{} n{} ", cc, w).unwrap();
+				o.val(out, c);
+			},
+		}
+	}
+	fn gen(g: &mut G) -> Self {
+		if g.rng.chance(1, 3) {
+			WideVariant::Small(u8::gen(g))
+		} else {
+			let mut b = [0u8; 16];
+			for x in b.iter_mut() {
+				*x = u8::gen(g);
+			}
+			WideVariant::Wide(b[0], b[1], b[2], b[3], b[4], b[5], b[6], b[7], b[8], b[9], b[10], b[11], b[12], b[13], b[14], b[15], 0, u32::gen(g), u64::gen(g), Option::gen(g))
+		}
+	}
+	fn min_len() -> usize {
+		2
+	}
+}
